@@ -100,17 +100,17 @@ func (g *keyGen) value() []byte {
 
 // Profile: weights of the history grammar.
 type Profile struct {
-	Name      string
-	MinOps    int
-	MaxOps    int
-	Keys      int // key pool size
-	W         map[string]int
-	EmptyVals bool
-	ObsEvery  int  // full observation burst after every n-th mutation (0 = only at the end)
-	Initials  []int64
-	Order     string // "" random | asc | desc | alt : insertion order for balance profiles
-	ReadsW    int    // weight of single random reads
-	NoLvfo    bool
+	Name       string
+	MinOps     int
+	MaxOps     int
+	Keys       int // key pool size
+	W          map[string]int
+	EmptyVals  bool
+	ObsEvery   int // full observation burst after every n-th mutation (0 = only at the end)
+	Initials   []int64
+	Order      string // "" random | asc | desc | alt : insertion order for balance profiles
+	ReadsW     int    // weight of single random reads
+	NoLvfo     bool
 	ToggleFast bool // every reopen independently chooses fast index on/off
 	Touch      bool // sprinkle read-only calls that may memoise (proofs, hashes)
 }
@@ -243,7 +243,7 @@ func obs(r *rand.Rand, g *keyGen, t *track, full bool, ops *[][]string) {
 		*ops = append(*ops, []string{"r", "v" + i64(t.first()-1), "size"})
 	}
 	bookkeeping(r, g, t, ops)
-	*ops = append(*ops, []string{"audit", "nodes"}, []string{"audit", "fast"})
+	*ops = append(*ops, []string{"audit", "nodes"}, []string{"audit", "fast"}, []string{"audit", "raw"})
 }
 
 // genM1 generates one MutableTree history.
